@@ -355,6 +355,18 @@ inline void write_result(const std::string& path, double wall) {
 //   <bin> run <quick|thorough> [PROPERTY or sub-name prefix ...]      (env: VERIF_SEED, VERIF_OUT, VERIF_SCALE)
 //   <bin> replay <sub-name> <case>                                     exit 0 = passes now, 1 = fails (prints msg)
 //   <bin> list
+
+// narrowing nt -> t2: moves every component onto (d = 0) or one source-ulp beside (d = -1, +1) a rounding tie of the target type; k selects the pattern of d
+inline void to_rounding_ties(std::vector<LD>& r, int nt, int t2, int k) {
+  for (auto& x : r) {
+    if (x == 0 || !std::isfinite(x)) continue;
+    const LD y = round_to(t2, x), m = y + (x < 0 ? -1 : 1) * ulp_at(t2, y) / 2;     // y + half an ulp of the target type: exact in the (wider) source type
+    const int d = (k % 3) - 1; k = k / 3 + (k % 3) * 2 + 1;
+    const LD v = round_to(nt, m + d * ulp_at(nt, m));
+    if (std::isfinite(v) && std::fabs(v) < std::ldexp((LD)1, ntinfo(t2).emax) && std::fabs(v) > std::ldexp((LD)1, ntinfo(t2).emin + 1)) x = v;
+  }
+}
+
 inline int engine_main(int argc, char** argv, const std::vector<Sub>& subs) {
   install_crash_handlers();
   setvbuf(stdout, nullptr, _IOLBF, 0);
